@@ -114,6 +114,26 @@ DispF(t, dx, dy) == [k |-> "disp", s |-> 0, target |-> t, dx |-> dx, dy |-> dy]
 ShiftF == [k |-> "shift", s |-> 0, target |-> <<0, 0>>, dx |-> 0, dy |-> 0]
 Verts(g) == {Flatten(g)[i] : i \in 1..Len(Flatten(g))}
 
+(* positional maps: vertex number k in storage order is moved, independently of any other vertex with the same
+   value (so the closing vertex of a ring can move away from its twin) *)
+RECURSIVE SumLens(_, _)
+SumLens(ms, n) == IF n = 0 THEN 0 ELSE SumLens(ms, n - 1) + Len(ms[n])
+RECURSIVE SumGLens(_, _)
+SumGLens(ms, n) == IF n = 0 THEN 0 ELSE SumGLens(ms, n - 1) + GLen(ms[n])
+Sub(pts, off, n) == SubSeq(pts, off + 1, off + n)
+PathsFrom(ms, pts, off) == [i \in DOMAIN ms |-> Sub(pts, off + SumLens(ms, i - 1), Len(ms[i]))]
+RECURSIVE Rebuild(_, _, _)
+Rebuild(g, pts, off) ==
+    CASE g.t = "Point" -> G(g.t, pts[off + 1])
+      [] g.t \in {"MultiPoint", "LineString"} -> G(g.t, Sub(pts, off, Len(g.m)))
+      [] g.t \in {"MultiLineString", "Polygon"} -> G(g.t, PathsFrom(g.m, pts, off))
+      [] g.t = "MultiPolygon" ->
+            G(g.t, [p \in DOMAIN g.m |-> PathsFrom(g.m[p], pts, off + SumGLens([q \in DOMAIN g.m |-> G("Polygon", g.m[q])], p - 1))])
+      [] g.t = "GeometryCollection" -> G(g.t, [i \in DOMAIN g.m |-> Rebuild(g.m[i], pts, off + SumGLens(g.m, i - 1))])
+MoveAt(g, k, d) == LET f == Flatten(g) IN Rebuild(g, [f EXCEPT ![k] = <<f[k][1] + d[1], f[k][2] + d[2]>>], 0)
+HasBounds(g) == g.t = "Bounds" \/ (g.t = "GeometryCollection" /\ \E i \in DOMAIN g.m : g.m[i].t \in {"Bounds", "GeometryCollection"})
+Positional(g) == IF HasBounds(g) THEN {} ELSE {MoveAt(g, k, d) : k \in 1..GLen(g), d \in {<<11, 0>>, <<0, 12>>, <<-9, 9>>}}
+
 (* structural mutations of the top-level member sequence *)
 HasMembers(g) == g.t \in {"MultiLineString", "Polygon", "MultiPolygon", "GeometryCollection"}
 Permuted(g) == {G(g.t, [i \in DOMAIN g.m |-> g.m[f[i]]]) : f \in Perms(Len(g.m))}
@@ -137,7 +157,7 @@ Mutants(g) ==
     {g} \cup {MapV(g, JigF(s)) : s \in 0..2}
     \cup {MapV(g, DispF(v, d[1], d[2])) : v \in Verts(g), d \in {<<11, 0>>, <<0, -11>>, <<50, 50>>, <<9, -9>>}}
     \cup (IF HasMembers(g) THEN Permuted(g) \cup Deleted(g) \cup Inserted(g) ELSE {})
-    \cup Rotated(g) \cup Reversed(g) \cup Retyped(g)
+    \cup Rotated(g) \cup Reversed(g) \cup Retyped(g) \cup Positional(g)
     \cup (IF HasMembers(g) THEN {MapV(x, JigF(1)) : x \in Permuted(g)} ELSE {}) \cup {MapV(x, JigF(1)) : x \in Rotated(g)}
 Pairs == UNION {{<<g, h>> : h \in Mutants(g)} : g \in Bases}
 
